@@ -79,7 +79,26 @@ class ClassInfo:
             if name in c.methods:
                 return ("func", c.methods[name])
             if name in c.attrs:
+                al = self._method_alias(c, c.attrs[name])
+                if al is not None:
+                    return ("func", al)
                 return ("attr", c, c.attrs[name])
+        return None
+
+    @staticmethod
+    def _method_alias(c, expr):
+        """`name = OtherClass.method` in a class body: the attribute IS that function"""
+        if isinstance(expr, ast.Attribute) and isinstance(expr.value, ast.Name):
+            try:
+                other = repo().lookup_class(c.module, expr.value.id) if hasattr(repo(), "lookup_class") else None
+            except Exception:
+                other = None
+            if other is None:
+                other = next((k for k in repo().classes.values() if k.name == expr.value.id), None)
+            if other is not None:
+                for k in other.mro:
+                    if expr.attr in k.methods:
+                        return k.methods[expr.attr]
         return None
 
     def resolve_after(self, after: "ClassInfo", name: str):
